@@ -97,6 +97,9 @@ def simulate_and_monitor(ctx, spec, case, monitors, nontrivial=None, key_extra='
         ctx.violation('harness:valid-scenario-rejected', {'exception': type(ex).__name__, 'message': str(ex)[:300]}, case)
         return None
     ctx.count('constants_converted_in_place_after_assembly', b.touched)
+    if spec.get('deepcopy'):
+        ctx.count('deep_copied_models')
+    ctx.count('elements_of_user_subclasses', sum(1 for e_ in [spec['motor']] + spec['chain'] if e_.get('subclass')))
     ctx.count('rejected_declarations_after_the_design', b.rejected_attempts)
     for _, kind_ in b.prior_design:
         ctx.count('relations_redeclared:' + kind_)
